@@ -1,7 +1,7 @@
 (* C06 — subjects deliver each item once, in order, to exactly the current subscribers. *)
-From RxModel Require Import Subject.
-From RxSpec Require Import SubjectSpec.
-From RxProofs Require SubjectLaws.
+From RxModel Require Import Subject Ileave.
+From RxSpec Require Import SubjectSpec IleaveSpec.
+From RxProofs Require SubjectLaws IleaveBase IleaveInv IleaveOrder IleaveLaws.
 
 (* Every history of subscribe / unsubscribe-one / next / next-with-a-subscription-made-
    inside-a-callback / error / complete / clone / retain / unsubscribe-subject and of the
@@ -23,6 +23,52 @@ Proof. exact SubjectLaws.closed_reports. Qed.
 Theorem C06_closed_for_ever :
   forall (s : subj) (op : sop), observers s = None -> observers (fst (sstep s op)) = None.
 Proof. exact SubjectLaws.closed_stays. Qed.
+
+(* ---- SubjectThreads under concurrent use (lock-level model Ileave.v): any number of threads, any
+   scripts, ANY schedule at the granularity of mutex acquisitions ---- *)
+
+(* a delivered item is the value of the next() that broadcast it (nothing invented) *)
+Theorem C06_threads_values :
+  forall v0 setup scripts sched,
+    let '(tr, e, fin) := run_case v0 setup scripts sched in values_ok scripts tr = true.
+Proof. exact IleaveBase.il_values. Qed.
+
+(* each subscriber gets each emission at most once, and all of them in one common order *)
+Theorem C06_threads_once_in_common_order :
+  forall v0 setup scripts sched,
+    IleaveInv.names_ok setup scripts = true ->
+    let '(tr, e, fin) := run_case v0 setup scripts sched in common_order_ok scripts tr = true.
+Proof. exact IleaveOrder.il_common_order. Qed.
+
+(* nothing reaches a subscriber after its terminal *)
+Theorem C06_threads_terminal_is_last :
+  forall v0 setup scripts sched,
+    IleaveInv.names_ok setup scripts = true ->
+    let '(tr, e, fin) := run_case v0 setup scripts sched in grammar_ok tr = true.
+Proof. exact IleaveLaws.il_grammar. Qed.
+
+(* nor after its unsubscribe() has returned *)
+Theorem C06_threads_nothing_after_unsubscribe :
+  forall v0 setup scripts sched,
+    IleaveInv.names_ok setup scripts = true -> IleaveLaws.unsubs_ok setup scripts = true ->
+    let '(tr, e, fin) := run_case v0 setup scripts sched in quiet_after_unsub tr = true.
+Proof. exact IleaveLaws.il_quiet_after_unsub. Qed.
+
+Check C06_threads_values : forall v0 setup scripts sched,
+    let '(tr, e, fin) := run_case v0 setup scripts sched in values_ok scripts tr = true.
+Check C06_threads_once_in_common_order : forall v0 setup scripts sched,
+    IleaveInv.names_ok setup scripts = true ->
+    let '(tr, e, fin) := run_case v0 setup scripts sched in common_order_ok scripts tr = true.
+Check C06_threads_terminal_is_last : forall v0 setup scripts sched,
+    IleaveInv.names_ok setup scripts = true ->
+    let '(tr, e, fin) := run_case v0 setup scripts sched in grammar_ok tr = true.
+Check C06_threads_nothing_after_unsubscribe : forall v0 setup scripts sched,
+    IleaveInv.names_ok setup scripts = true -> IleaveLaws.unsubs_ok setup scripts = true ->
+    let '(tr, e, fin) := run_case v0 setup scripts sched in quiet_after_unsub tr = true.
+Print Assumptions C06_threads_values.
+Print Assumptions C06_threads_once_in_common_order.
+Print Assumptions C06_threads_terminal_is_last.
+Print Assumptions C06_threads_nothing_after_unsubscribe.
 
 Check C06_subject_refines : forall h, size_ok false h = true -> srun subj0 h = arun asub0 h.
 Check C06_closed_reports : forall s, observers s = None ->
@@ -46,3 +92,10 @@ Proof. vm_compute. reflexivity. Qed.
 Example C06_example_premise :
   size_ok false [OpSubscribe; OpNextSubInside (VZ 1) 0; OpNext (VZ 2); OpUnsubOne 0; OpNext (VZ 3); OpError 7; OpNext (VZ 4); OpIsEmpty] = true.
 Proof. reflexivity. Qed.
+
+(* the concurrent theorems are not vacuous: a three-thread case within their hypotheses runs to its end
+   and satisfies every predicate *)
+Example C06_threads_example :
+  (let '(tr, e, f) := run_case 0%Z IleaveLaws.ex_setup IleaveLaws.ex_scripts IleaveLaws.ex_sched in
+   (ileave_ok IleaveLaws.ex_setup IleaveLaws.ex_scripts tr e, e, Nat.ltb 30 (length tr))) = (true, EFinished, true).
+Proof. exact IleaveLaws.hyps_case_runs. Qed.
